@@ -1,19 +1,24 @@
 #!/bin/bash
 # Re-runs every seeded change against the check of its property (dbg,rel lanes) and writes seeded/SUMMARY.txt.
-# Usage: tools/run_all_seeds.sh [seed-name ...]
+# Usage: [PAR=4] tools/run_all_seeds.sh [seed-name ...]      (PAR seeds at a time, default 4)
 cd /verif
 SEEDS="$@"
 [ -z "$SEEDS" ] && SEEDS=$(ls seeded | grep -E '^C[0-9]+-[a-z]$')
 OUT=seeded/SUMMARY.txt
-: > $OUT.new
-for s in $SEEDS; do
+TMP=$(mktemp -d /tmp/seedsum.XXXX)
+one() {
+  s=$1
   p=$(python3 -c "import json;print(json.load(open('seeded/$s/meta.json'))['property'])")
   extra=""
   case $s in C02-c) extra="C11";; esac
   res=$(tools/try_seed.sh seeded/$s --lanes dbg,rel $p $extra 2>&1 | grep -E "^(demo|existing|check)" | sed 's/^/    /')
   det=$(echo "$res" | grep -c "violations=[1-9]")
   conf=$(echo "$res" | grep -c "(ok)")
-  echo "$s property=$p confirmed=$([ $conf -eq 3 ] && echo yes || echo NO) detected=$([ $det -ge 1 ] && echo yes || echo no)" | tee -a $OUT.new
-  echo "$res" >> $OUT.new
-done
-mv $OUT.new $OUT
+  { echo "$s property=$p confirmed=$([ $conf -eq 3 ] && echo yes || echo NO) detected=$([ $det -ge 1 ] && echo yes || echo no)"; echo "$res"; } > $2/$s.txt
+  head -1 $2/$s.txt
+}
+export -f one
+echo $SEEDS | tr ' ' '\n' | VERIF_JOBS=6 xargs -P ${PAR:-4} -I{} bash -c "one {} $TMP"
+for s in $SEEDS; do cat $TMP/$s.txt; done > $OUT
+rm -rf $TMP
+grep -c "detected=yes" $OUT; grep "detected=no\|confirmed=NO" $OUT
